@@ -41,6 +41,10 @@ BUDGET = {"quick": {"requests": 14, "envs": 8, "wall_cap": 420},
 
 
 def gen_request_spec(rng):
+    if rng.random() < 0.2:
+        spec = grammar.gen_extended_ops_api(rng)
+        spec["options"]["autogen-snippets"] = rng.random() < 0.5
+        return spec
     spec = grammar.gen_api(rng, PROFILE)
     o = spec["options"]
     o["autogen-snippets"] = rng.random() < 0.7
